@@ -15,6 +15,8 @@ pub struct BfsStats {
     pub transitions: u64,
     pub replayed_calls: u64,
     pub frontier_emptied: bool,
+    /// the search was cut after a complete layer because it already holds hundreds of violations
+    pub stopped_on_violations: bool,
     pub states_per_layer: Vec<u64>,
     pub outcome_classes: BTreeMap<String, (u64, Vec<Ev>)>,
     pub events_enabled: BTreeMap<String, u64>,
@@ -74,6 +76,7 @@ pub fn bfs(
         transitions: 0,
         replayed_calls: 0,
         frontier_emptied: false,
+        stopped_on_violations: false,
         states_per_layer: vec![],
         outcome_classes: BTreeMap::new(),
         events_enabled: BTreeMap::new(),
@@ -216,6 +219,13 @@ pub fn bfs(
         if stats.states > max_states {
             break;
         }
+        // Enough counterexamples: a broken subject can multiply the reachable states (every wrong
+        // store is a new state) and the search would run into the wall-clock cap instead of
+        // reporting what it has. The layer is complete, so the shortest counterexamples are in.
+        if violations.len() >= 500 {
+            stats.stopped_on_violations = true;
+            break;
+        }
     }
     if frontier.is_empty() {
         stats.frontier_emptied = true;
@@ -229,6 +239,7 @@ pub fn stats_json(stats: &BfsStats) -> serde_json::Value {
         "layers_completed": stats.layers_completed,
         "states_per_layer": stats.states_per_layer,
         "frontier_emptied": stats.frontier_emptied,
+        "stopped_after_a_layer_with_many_violations": stats.stopped_on_violations,
         "host_calls_executed_including_replay": stats.replayed_calls,
         "outcome_classes": stats.outcome_classes.iter().map(|(k,(n,h))| json!({"class":k,"count":n,"shortest_history":hist_json(h)})).collect::<Vec<_>>(),
         "distinct_outcome_classes": stats.outcome_classes.len(),
